@@ -466,15 +466,16 @@ DEEP_ONLY = [["C03", "monotonise_n4_full"],
   ["C11", "ripser_n4_p2"],
   ["C11", "ripser_n3_p5"],
   ["C11", "ripser_n4_p3"],
-  ["C11", "ripser_n4_p2_cross"],
-  ["C11", "ripser_n5_p3_zero"],
-  ["C11", "ripser_n5_p3_forked"],
+  
+  
+  
   ["C19", "srips_n5"]]
 for _pid, _name in DEEP_ONLY:
     for _u in PROPS[_pid]['units']:
         if _u['name'] == _name: _u['tiers'] = ['deep']
 
-_TH = {'C06': 'quick tier + RU with VECTOR columns: every filtration of 8 cells of dimension <= 1 on 4 vertices (enumerated) x 2 swaps; RU without stored barcode m=5 k=3',
+_TH = {'C11': 'quick tier + full cross product of thresholds, dim_max, forms and encodings at n=4 with values {1,2,3} (175k enumerated inputs); n=5 with values {0,1} and {1,2}, p=3 (enumerated)',
+       'C06': 'quick tier + RU with VECTOR columns: every filtration of 8 cells of dimension <= 1 on 4 vertices (enumerated) x 2 swaps; RU without stored barcode m=5 k=3',
        'C07': 'quick tier + graph zigzags on 4 vertices with 8 edge arrows (right-filtration oracle, 3.7M paths)',
        'C12': 'quick tier + complete graph on 6 vertices: weights in {1,2} (dense table); 12 free weights in {1,2,3} with the triangle {0,1,2} at 1, for both neighbour-table implementations (enumerated, 531k inputs each)'}
 for _pid, _P in PROPS.items():
